@@ -234,3 +234,108 @@ class ClockOffset:
         for n, f in {**self._orig, **self._orig_ns}.items():
             setattr(self._time, n, f)
         return False
+
+
+# Byte patterns that content-sniffing code keys on: pickle protocol headers and STOP, JSON / repr punctuation,
+# compression and BOM magics, NULs, 0xff, white space.  Used as forced PREFIXES or SUFFIXES of values that are
+# random in the code under test (PRF outputs, os.urandom draws), see Steer.
+MAGIC_PREFIXES = [b"\x80\x04\x95", b"\x80\x03", b"\x80\x02", b"\x80\x05\x95", b"\x80\x04", b"[", b"{", b'"', b"[]", b"{}",
+                  b"null", b"b'", b"0x", b"\x00", b"\x00\x00\x00", b"\xff\xff\xff", b"\n", b" ", b"\t", b"\x1f\x8b",
+                  b"x\x9c", b"BZh", b"\xef\xbb\xbf", b"(", b"]", b"}", b"N.", b"\x80", b"-", b"+", b"#", b"\\", b"%",
+                  b"\r\n", b"\xc3\x28", b"\xed\xa0\x80"]
+MAGIC_SUFFIXES = [b".", b"\x00", b"\x00\x00", b" ", b"\n", b"\r\n", b"=", b"==", b"\xff", b"]", b"}", b"'", b'"', b"\\",
+                  b"\x80", b"\x01", b"\x10", b"\x10" * 4, b"\x0f" * 3, b"\xc3"]
+
+
+class Steer:
+    """Context manager that forces a FEW of the pseudo-random values the code under test draws to begin or end with
+    byte patterns from MAGIC_PREFIXES / MAGIC_SUFFIXES.
+
+    * HmacPRF outputs: the first time a (key, message, length) triple is evaluated inside the context it may be chosen
+      (probability `p`, at most `cap` per arm()); its output is then `P + out[len(P):]` (or `out[:-len(S)] + S`) for that
+      triple from then on. The function stays deterministic, keeps its lengths and differs from HMAC in a handful of
+      points whose remaining >= 6 bytes are still HMAC output, so label collisions stay negligible; a triple evaluated
+      before it was chosen is never changed afterwards (its earlier output may already be in an index).
+    * os.urandom draws: the same with fresh random tails (keys, IVs, fillers, dummy keywords).
+    What correct code must not do is behave differently because a random-looking value happens to look like a pickle,
+    a JSON document, white space or padding."""
+
+    def __init__(self, rng, p=0.12, cap=6, prf=True, urandom=True):
+        self.rng, self.p, self.cap = rng, p, cap
+        self.do_prf, self.do_urandom = prf, urandom
+        self.steered_prf = {}
+        self.seen = set()
+        self.steered_values = []
+        self.patterns = []
+        self.n_prf = self.n_ur = 0
+        self.left = cap
+
+    def arm(self):
+        """new case: forget what was seen, allow `cap` more forced values"""
+        self.seen.clear()
+        self.steered_prf.clear()
+        self.steered_values = []
+        self.patterns = []
+        self.left = self.cap
+
+    def _force(self, out):
+        rng = self.rng
+        n = len(out)
+        if rng.random() < 0.65:
+            P = rng.choice(MAGIC_PREFIXES)
+            if len(P) > n - 6:
+                return None
+            self.patterns.append("prefix:" + P.hex())
+            return P + out[len(P):]
+        S = rng.choice(MAGIC_SUFFIXES)
+        if len(S) > n - 6:
+            return None
+        return out[:n - len(S)] + S
+
+    def __enter__(self):
+        import toolkit.prf.hmac_prf as prf_mod
+        self._PRF = prf_mod.HmacPRF
+        self._orig_call = inner = self._PRF.__call__
+        self._orig_urandom = real_urandom = os.urandom
+        me = self
+
+        def prf_call(self, key, message):
+            out = inner(self, key, message)
+            trip = hashlib.blake2b(bytes(key) + b"|" + bytes(message) + b"|%d" % len(out), digest_size=10,
+                                   person=str(len(bytes(key))).encode()).digest()
+            f = me.steered_prf.get(trip)
+            if f is not None:
+                return f
+            if trip not in me.seen:
+                me.seen.add(trip)
+                if me.left > 0 and me.rng.random() < me.p:
+                    f = me._force(out)
+                    if f is not None:
+                        me.left -= 1
+                        me.n_prf += 1
+                        me.steered_prf[trip] = f
+                        me.steered_values.append(f)
+                        return f
+            return out
+
+        def urandom(n):
+            out = real_urandom(n)
+            if me.left > 0 and me.rng.random() < me.p / 2:
+                f = me._force(out)
+                if f is not None:
+                    me.left -= 1
+                    me.n_ur += 1
+                    me.steered_values.append(f)
+                    return f
+            return out
+
+        if self.do_prf:
+            self._PRF.__call__ = prf_call
+        if self.do_urandom:
+            os.urandom = urandom
+        return self
+
+    def __exit__(self, *exc):
+        self._PRF.__call__ = self._orig_call
+        os.urandom = self._orig_urandom
+        return False
